@@ -341,6 +341,10 @@ package state
 //@   nocall sync.Map.Delete [C05] pool_mirror_not_touched_before_the_write
 //@   nocall sync.Map.Store [C05] pool_mirror_not_filled_before_the_write
 //@   nocall Batch.Write [C06] the_callers_batch_is_not_written_here
+// A cited key version that differs from the block's is excused only by the writer of
+// the CITED version (a pool transaction the block does not contain).
+//@   local localVersion string
+//@   at xmodel.GetTxidFromVersion#1 assert excuse_looks_at_the_cited_version: $0 == localVersion
 //@   at State.undoUnconfirmedTx assert only_conflicting_or_delayed_are_undone: (hasConflict || tooDelayed) && $0 == unconfirmTx && $3 == batch
 //@   loop 1 invariant seen_distinct: 0 <= $i && $i <= len(block.Transactions) && UTXOKeysInBlock != nil && (forall k string :: in(UTXOKeysInBlock, k) ==> UTXOKeysInBlock[k]) && blkSeen(block, UTXOKeysInBlock, $i) && blkDistinct(block, $i)
 //@   loop 2 invariant seen_distinct_partial: 0 <= $i && $i <= len(tx.TxInputs) && 0 <= $i#1 && $i#1 < len(block.Transactions) && tx == block.Transactions[$i#1] && UTXOKeysInBlock != nil && (forall k string :: in(UTXOKeysInBlock, k) ==> UTXOKeysInBlock[k]) && blkSeen(block, UTXOKeysInBlock, $i#1) && blkDistinct(block, $i#1) && (forall i int :: 0 <= i && i < $i ==> in(UTXOKeysInBlock, blkKey(block, $i#1, i))) && (forall i int, j int :: 0 <= i && i < j && j < $i ==> blkKey(block, $i#1, i) != blkKey(block, $i#1, j)) && (forall a int, i int, j int :: 0 <= a && a < $i#1 && 0 <= i && i < len(block.Transactions[a].TxInputs) && 0 <= j && j < $i ==> blkKey(block, a, i) != blkKey(block, $i#1, j))
